@@ -765,6 +765,11 @@ func (x *Exec) applyContract(e *ast.CallExpr, st *State, fn *types.Func, c *Cont
 	}
 	post := &cctx{x: x, st: st, old: pre, env: env, oldEnv: oldEnv, callee: c, resNames: resN}
 	for _, en := range c.Ensures {
+		if strings.Contains(en.Src, "now(") {
+			// speaks about the callee's locals: proved inside the callee, not
+			// exported to callers
+			continue
+		}
 		x.assumeEnsures(post.with(en), en, env, resN)
 	}
 	for _, g := range c.Grants {
